@@ -1074,7 +1074,7 @@ def gen_box(r, w, h, k, n, kind):
                     col[r.randrange(h)] = "│"
         return col
     left, right = side_col(), side_col()
-    text_mode = r.choice(["none", "label", "full"])
+    text_mode = r.choice(["none", "label", "full", "wide", "words"])
     rows = [tl + hz_row() + tr]
     for i in range(h):
         inner = " " * w
@@ -1084,6 +1084,19 @@ def gen_box(r, w, h, k, n, kind):
             inner = " " * off + lab + " " * (w - off - len(lab))
         elif text_mode == "full":
             inner = "".join(r.choice(gen.LABELS + "  ") for _ in range(w))
+        elif text_mode == "wide" and w >= 2:
+            # labels in other scripts, double-width ones too (two columns each)
+            inner, room = "", w
+            while room > 0:
+                ch = r.choice(gen.WIDE[:12] + gen.LATIN + gen.CYRIL + "   ")
+                cw_ = 2 if common_wide(ch) else 1
+                if cw_ > room:
+                    ch, cw_ = " ", 1
+                inner += ch
+                room -= cw_
+        elif text_mode == "words":
+            # many separate one-letter words (more groups than any look-back window when the box is large)
+            inner = "".join(r.choice(gen.LABELS) if j % 2 == 0 else " " for j in range(w))
         rows.append(left[i] + inner + right[i])
     rows.append(bl + hz_row() + br)
     text = "\n" * n + "\n".join(" " * k + x for x in rows)
@@ -1138,6 +1151,8 @@ def c05(tier):
                 continue
             for _ in range(per):
                 boxes.append(gen_box(r, w, h, r.randint(0, 5), r.randint(0, 3), kind))
+    for _ in range(6 if tier == "quick" else 60):
+        boxes.append(gen_box(r, r.randint(40, 70), r.randint(3, 6), r.randint(0, 5), r.randint(0, 3), r.choice(kinds)))
     obs = observe.observe([{"input": t} for t, _ in boxes], tag="C05A")
     for (t, b), o in zip(boxes, obs):
         run.add_event({"props": ["C05box", "C05s"], "rows": o["rows"], "doc": o["doc"], "box": b}, {"input": t, "box": b})
@@ -1319,10 +1334,10 @@ ARROWS = {
     "l": [("<", "-"), ("◀", "─"), ("◄", "─"), ("◂", "─")],
     "u": [("^", "|"), ("▲", "│"), ("▴", "│")],
     "d": [("v", "|"), ("V", "|"), ("▼", "│"), ("▾", "│")],
-    "dr": [("v", "\\"), ("V", "\\")],
-    "dl": [("v", "/"), ("V", "/")],
-    "ul": [("^", "\\")],
-    "ur": [("^", "/")],
+    "dr": [("v", "\\"), ("V", "\\"), ("v", "╲"), ("V", "╲")],
+    "dl": [("v", "/"), ("V", "/"), ("v", "╱"), ("V", "╱")],
+    "ul": [("^", "\\"), ("^", "╲")],
+    "ur": [("^", "/"), ("^", "╱")],
 }
 
 
@@ -1428,7 +1443,7 @@ def c14(tier):
         for h in hs:
             if tier == "quick" and (w + h) % 2:
                 continue
-            for (tl, tr, bl, br, off) in [(".", ".", "'", "'", 0), (",", ".", "`", "'", 0), (".", ".", "'", "'", 1)]:
+            for (tl, tr, bl, br, off) in [(".", ".", "'", "'", 0), (",", ".", "`", "'", 0), (".", ".", "'", "'", 1), (".", ".", "’", "’", 0)]:
                 if off and w < 3:
                     continue
                 k, n = r.randint(0, 4), r.randint(0, 2)
@@ -1465,7 +1480,7 @@ def rand_decl(r):
     if r.random() < 0.3:
         # text that looks like an entity or a character reference is ordinary declaration text
         j = r.randint(0, len(d))
-        d = d[:j] + r.choice(["&amp;", "&lt;", "&gt;", "&quot;", "&#39;", "&#x41;", "&nbsp;", "&amp;amp;"]) + d[j:]
+        d = d[:j] + r.choice(["&amp;", "&lt;", "&gt;", "&quot;", "&#39;", "&#x41;", "&nbsp;", "&amp;amp;", "# Legend:", "\n# Legend:\n", "url(a&b<c)"]) + d[j:]
     return d
 
 
@@ -1496,6 +1511,17 @@ def nested_boxes(r, depth):
     tag_pos = [(0, c_tag, names)]          # (row, col) relative to the content block
     if label:
         lines.append((" " + label).ljust(inner_w)[:inner_w])
+    if r.random() < 0.3:
+        # a second, separate tag in the same innermost shape: on a row of its own or, with room, on the tag's row
+        n2 = [rand_tagname(r)]
+        t2 = "{" + n2[0] + "}"
+        if place == "in" and len(lines[0].rstrip()) + 2 + len(t2) <= inner_w and r.random() < 0.5:
+            c2 = len(lines[0].rstrip()) + 2
+            lines[0] = (lines[0].rstrip() + "  " + t2).ljust(inner_w)
+            tag_pos.append((0, c2, n2))
+        elif len(t2) + 1 <= inner_w:
+            lines.append((" " + t2).ljust(inner_w))
+            tag_pos.append((len(lines) - 1, 1, n2))
     block = lines
     for d in range(depth):
         style = r.choice(["sharp", "round", "round2", "uni"])
@@ -1734,6 +1760,13 @@ def hostile_inputs(r, n):
                         rows.append(" " * x + "+--" + ("+" if j < k - 2 else ""))
                         x += 3
                 out.append("\n".join(rows))
+    # every ordered pair of drawing glyphs side by side (and, in the larger tier, one above the other): one conversion
+    # per pair, so that a pair that panics is attributed (one test per pair of entries of the glyph tables)
+    for g1 in gen.FULL:
+        for g2 in gen.FULL:
+            out.append(g1 + g2)
+            if n >= 5000:
+                out.append(g1 + "\n" + g2)
     # degenerate quoted strings, braces and tags INSIDE shapes (what lies in a shape's bounds goes through the
     # enclosure stage and the tag parser)
     for q in ['""', '"', '"a', '"" ""', '"{}"', '{}', '{', '}', '{,}', '{a,}', '"\\"', '{"}', '"{a}"', "''", '{ }', '{a b}']:
